@@ -381,7 +381,7 @@ LEVEL_TEXT = ("Unbounded theorems about the Gallina model of the io_uring call p
               "normally, every call handed back the answer of its own request - the next bytes of its own descriptor's "
               "stream, its own error with the matching errno - and no byte a descriptor delivered is missing), "
               "C27_call_spec (what the oracle accepts for one call), C27_errno_mapping (negative completion -> -1 with "
-              "errno = -value), and the refutation witnesses of the two recorded findings, which the theorem excludes "
+              "errno = -value, the completion value -1 = -EPERM included), and the refutation witnesses of the two recorded findings, which the theorem excludes "
               "through no_defect (coroutine read on a socket with a receive time limit; coroutine call on a descriptor "
               "number that is not open). The model is tied to the real runtime built with the io_uring feature on this "
               "kernel: the same cases run as real threads and real coroutines of a real EventLoops making hooked "
